@@ -71,7 +71,12 @@ def tlc(module, cfg, name, workers=8, timeout=600, extra=None, env=None, java_op
         cwd = os.path.dirname(module)
         module = os.path.basename(module)[:-4] if module.endswith(".tla") else os.path.basename(module)
     java_opts = list(java_opts or []) + ["-DTLA-Library=" + SPEC]
-    cmd = ["timeout", str(timeout), "tlc"]
+    # java directly (not the `tlc` wrapper): -Xss must be on the command line to reach the main thread,
+    # where ASSUMEs (the oracle modules) are evaluated
+    jopts = [o for o in java_opts if not o.startswith("-Xss")]
+    cmd = ["timeout", str(timeout), "java", "-Xss1g", "-XX:+UseParallelGC"] + ([f"-Xmx{heap}"] if heap else []) + jopts + \
+          ["-cp", TLA_JAR + ":/opt/veriftools/tla/CommunityModules-deps.jar", "tlc2.TLC"]
+    java_opts = None
     cmd += ["-workers", str(workers), "-metadir", md, "-cleanup", "-noGenerateSpecTE", "-config", cfgp]
     if extra:
         cmd += extra
